@@ -26,9 +26,12 @@ import (
 	"regexp"
 	"runtime"
 	"sort"
+	"strconv"
 	"strings"
 	"sync"
+	"sync/atomic"
 	"testing"
+	"time"
 
 	"pgregory.net/rapid"
 
@@ -106,9 +109,11 @@ type entry struct {
 	// ret, when set, performs the call and also hands out pointers to every reference-bearing value the
 	// library returned (pointers, slices, maps, big.Ints); call is then derived from it
 	ret func() ([]byte, []interface{})
+	pool  bool   // borrows from a process-wide pool (big.Int pools): interleaved with its likes in the histories
 	// filled by the group
 	first []byte // result of the very first call in this process (sequential)
 	idx   int
+	g     *group
 }
 
 type group struct {
@@ -119,6 +124,40 @@ type group struct {
 	// purity violations observed while recording the first result of each entry
 	firstCallImpure []string
 	notes           []string // exemptions / observations of the build (emitted as rep.Note by the tests)
+	// world: digest of EVERY shared object of the group, taken before the first call. It is compared after every
+	// call of any entry: an argument may be damaged by a later call of another entry (e.g. through a pool)
+	world *snapSet
+}
+
+// damaged returns the shared objects of the group that no longer have their original content.
+func (g *group) damaged() []string { return g.world.changed() }
+
+// blame explains a purity violation observed right after a call of e.
+func blame(e *entry, changed []string) string {
+	own := map[string]bool{}
+	for _, a := range e.args {
+		own[a.name] = true
+	}
+	var mine, others []string
+	for _, c := range changed {
+		if own[c] {
+			mine = append(mine, c)
+		} else {
+			others = append(others, c)
+		}
+	}
+	msg := ""
+	if len(mine) > 0 {
+		msg += fmt.Sprintf("%s modified its shared argument(s) %v (or returned a value aliasing them)", e.name, mine)
+	}
+	if len(others) > 0 {
+		if msg != "" {
+			msg += "; "
+		}
+		msg += fmt.Sprintf("after the call of %s the shared object(s) %v, arguments of OTHER entry points, are changed: an earlier call leaked them "+
+			"into state this call wrote to (pool, cache) or this call wrote outside its arguments", e.name, others)
+	}
+	return msg
 }
 
 var (
@@ -147,11 +186,12 @@ type builder struct {
 	g     *group
 	light bool
 	heavy bool
+	pool  bool
 }
 
 // add registers one entry point. args are the shared objects the call must leave untouched.
 func (b *builder) add(name string, call func() []byte, args ...arg) *entry {
-	e := &entry{name: b.g.name + "/" + name, call: call, args: args, light: b.light, heavy: b.heavy}
+	e := &entry{name: b.g.name + "/" + name, call: call, args: args, light: b.light, heavy: b.heavy, pool: b.pool, g: b.g}
 	b.g.entries = append(b.g.entries, e)
 	return e
 }
@@ -228,18 +268,29 @@ func (g *group) get() []*entry {
 	g.once.Do(func() {
 		b := &builder{g: g}
 		g.build(b)
+		g.world = snapArgs(g.entries...)
+		known := map[string]bool{}
 		for i, e := range g.entries {
 			e.idx = i
 			// the very first call of an entry in this process is where lazily built caches get written into
-			// shared arguments: it runs under the purity oracle too
-			before := snapArgs(e)
-			e.first = e.run()
-			if ch := before.changed(); len(ch) > 0 {
-				what := "modified its shared argument(s)"
-				if e.ret != nil {
-					what = "returned a value that aliases its shared argument(s) (overwriting the result changed)"
+			// shared arguments: it runs under the purity oracle too (all shared objects of the group)
+			var pan string
+			e.first, pan = safeCall(e)
+			if pan != "" {
+				g.firstCallImpure = append(g.firstCallImpure, fmt.Sprintf("first call of %s: %s", e.name, pan))
+				if hung.Load() {
+					break // the process is wedged: nothing after this call can be decided
 				}
-				g.firstCallImpure = append(g.firstCallImpure, fmt.Sprintf("%s %s %v on its first call", e.name, what, ch))
+			}
+			var fresh []string
+			for _, c := range g.damaged() {
+				if !known[c] {
+					known[c] = true
+					fresh = append(fresh, c)
+				}
+			}
+			if len(fresh) > 0 {
+				g.firstCallImpure = append(g.firstCallImpure, "PURITY: on its first call: "+blame(e, fresh))
 			}
 			if e.ret != nil {
 				if again := e.call(); !bytes.Equal(again, e.first) {
@@ -318,14 +369,67 @@ func short(b []byte) string {
 // safeCall runs e.call and converts a panic into an error text (a panic is a failure, with a
 // readable message instead of a crashed process).
 func safeCall(e *entry) (res []byte, panicked string) {
-	defer func() {
-		if r := recover(); r != nil {
-			buf := make([]byte, 4096)
-			buf = buf[:runtime.Stack(buf, false)]
-			panicked = fmt.Sprintf("%v\n%s", r, buf)
-		}
+	if hung.Load() {
+		return nil, "NO RESULT: an earlier call in this process never returned (see the first failure)"
+	}
+	type outcome struct {
+		res []byte
+		pan string
+	}
+	ch := make(chan outcome, 1)
+	go func() {
+		defer func() {
+			if r := recover(); r != nil {
+				buf := make([]byte, 4096)
+				buf = buf[:runtime.Stack(buf, false)]
+				ch <- outcome{nil, fmt.Sprintf("%v\n%s", r, buf)}
+			}
+		}()
+		ch <- outcome{e.run(), ""}
 	}()
-	return e.run(), ""
+	select {
+	case o := <-ch:
+		return o.res, o.pan
+	case <-time.After(deadline()):
+		hung.Store(true)
+		return nil, fmt.Sprintf("NO RESULT: %s did not return within %v (its calls take milliseconds); goroutines blocked in the library:\n%s",
+			e.name, deadline(), blockedDump())
+	}
+}
+
+// A call that never returns gives no result at all. The watchdog is not a timing oracle: the deadline is
+// 10^4..10^5 times the duration of any registry entry and only turns a hang (which would otherwise end as an
+// inconclusive job timeout) into a readable failure with the goroutine dump that proves the deadlock.
+var hung atomic.Bool
+
+func deadline() time.Duration {
+	if s, err := strconv.Atoi(os.Getenv("VERIF_C18_DEADLINE_S")); err == nil && s > 0 {
+		return time.Duration(s) * time.Second
+	}
+	return 240 * time.Second
+}
+
+// blockedDump returns the stacks of the goroutines that are blocked inside gnark-crypto.
+func blockedDump() string {
+	buf := make([]byte, 1<<22)
+	buf = buf[:runtime.Stack(buf, true)]
+	var keep []string
+	for _, g := range strings.Split(string(buf), "\n\n") {
+		if strings.Contains(g, "gnark-crypto") && (strings.Contains(g, "[chan ") || strings.Contains(g, "[semacquire") ||
+			strings.Contains(g, "[select") || strings.Contains(g, "[sync.")) {
+			if len(g) > 1500 {
+				g = g[:1500] + " ..."
+			}
+			keep = append(keep, g)
+		}
+		if len(keep) >= 6 {
+			break
+		}
+	}
+	if len(keep) == 0 {
+		return "(no goroutine is blocked on a channel or lock inside the library: the call is still computing)"
+	}
+	return strings.Join(keep, "\n\n")
 }
 
 type snapSet struct {
@@ -372,7 +476,7 @@ func TestC18_Sequential(t *testing.T) {
 		rep.Note(test, fmt.Sprintf("%d entry points in group %s", len(es), g.name))
 		if len(g.firstCallImpure) > 0 {
 			for _, m := range g.firstCallImpure {
-				t.Errorf("PURITY: %s", m)
+				t.Errorf("%s", m)
 			}
 			t.FailNow()
 		}
@@ -390,16 +494,14 @@ func TestC18_Sequential(t *testing.T) {
 func sweepSequential(t *testing.T, test string, es []*entry) {
 	for i, e := range es {
 		pair := []*entry{e, es[(i+1)%len(es)]}
-		all := snapArgs(pair...)
 		for n := 0; n < 6; n++ {
 			c := pair[n%2]
-			before := snapArgs(c)
 			res, pan := safeCall(c)
 			if pan != "" {
 				t.Fatalf("sweep: %s panicked: %s", c.name, pan)
 			}
-			if ch := before.changed(); len(ch) > 0 {
-				t.Fatalf("PURITY: sweep: %s modified its shared argument(s) %v (or returned a value aliasing them)", c.name, ch)
+			if ch := c.g.damaged(); len(ch) > 0 {
+				t.Fatalf("PURITY: sweep (%s interleaved with %s): %s", pair[0].name, pair[1].name, blame(c, ch))
 			}
 			if msg := afterScribble(c); msg != "" {
 				t.Fatalf("%s", msg)
@@ -409,14 +511,17 @@ func sweepSequential(t *testing.T, test string, es []*entry) {
 					n/2+1, c.name, pair[1-n%2].name, short(res), short(c.first))
 			}
 		}
-		if ch := all.changed(); len(ch) > 0 {
-			t.Fatalf("PURITY: sweep: shared object(s) %v changed while interleaving %s and %s", ch, pair[0].name, pair[1].name)
-		}
 		rep.Case(test, "sweep:"+pair[0].name+";"+pair[1].name, true, append([]string{"sweep", "entry:" + e.name, "k=3"}, retClass(pair...)...)...)
 	}
 }
 
 func propSequential(rt *rapid.T, test string, es []*entry) {
+	// one history in four is drawn among the entry points that borrow from process-wide pools only, so that pool
+	// users meet each other (a pooled object dirtied or leaked by one is picked up by the next)
+	focus := false
+	if pu := poolUsers(es); len(pu) >= 2 && rapid.IntRange(0, 3).Draw(rt, "poolFocus") == 0 {
+		es, focus = pu, true
+	}
 	m := rapid.IntRange(1, 5).Draw(rt, "distinct")
 	if m > len(es) {
 		m = len(es)
@@ -444,18 +549,19 @@ func propSequential(rt *rapid.T, test string, es []*entry) {
 		}
 	}
 	classes = append(classes, fmt.Sprintf("distinct=%d", m))
-	all := snapArgs(chosen...)
+	if focus {
+		classes = append(classes, "pool_interleave")
+	}
 	var key strings.Builder
 	for n, p := range seq {
 		e := es[p]
 		fmt.Fprintf(&key, "%s;", e.name)
-		before := snapArgs(e)
 		res, pan := safeCall(e)
 		if pan != "" {
 			rt.Fatalf("step %d: %s panicked: %s", n, e.name, pan)
 		}
-		if ch := before.changed(); len(ch) > 0 {
-			rt.Fatalf("PURITY: step %d: %s modified its shared argument(s) %v (or returned a value aliasing them)", n, e.name, ch)
+		if ch := e.g.damaged(); len(ch) > 0 {
+			rt.Fatalf("PURITY: step %d: %s (history %s)", n, blame(e, ch), key.String())
 		}
 		if msg := afterScribble(e); msg != "" {
 			rt.Fatalf("step %d: %s", n, msg)
@@ -465,10 +571,17 @@ func propSequential(rt *rapid.T, test string, es []*entry) {
 				n, e.name, short(res), short(e.first), key.String())
 		}
 	}
-	if ch := all.changed(); len(ch) > 0 {
-		rt.Fatalf("PURITY: shared object(s) %v changed during the history %s", ch, key.String())
-	}
 	rep.Case(test, key.String(), true, uniq(append(classes, retClass(chosen...)...))...)
+}
+
+func poolUsers(es []*entry) []*entry {
+	var r []*entry
+	for _, e := range es {
+		if e.pool {
+			r = append(r, e)
+		}
+	}
+	return r
 }
 
 // pickDistinct draws m distinct indices below n (partial Fisher-Yates over rapid draws).
@@ -518,7 +631,7 @@ func TestC18_Concurrent(t *testing.T) {
 		}
 		if len(g.firstCallImpure) > 0 { // found while building the registry: everything after it is a consequence
 			for _, m := range g.firstCallImpure {
-				t.Errorf("PURITY: %s", m)
+				t.Errorf("%s", m)
 			}
 			t.FailNow()
 		}
@@ -571,21 +684,22 @@ func sweepConcurrent(t *testing.T, test string, es []*entry) {
 		for j := range plans {
 			plans[j] = []step{{e, j%2 == 0}, {e, false}}
 		}
-		snap := snapArgs(e)
 		results, panics := runPlans(p, plans)
 		for j := range plans {
 			if panics[j] != "" {
 				t.Fatalf("CONCURRENCY: sweep: panic in %s", panics[j])
 			}
+		}
+		if ch := e.g.damaged(); len(ch) > 0 {
+			t.Fatalf("PURITY: sweep: while 4 goroutines ran %s: %s", e.name, blame(e, ch))
+		}
+		for j := range plans {
 			for _, r := range results[j] {
 				if !bytes.Equal(r, e.first) {
 					t.Fatalf("CONCURRENCY: sweep: 4 goroutines (GOMAXPROCS=%d) all running %s: one obtained %s, alone it returns %s%s",
 						p, e.name, short(r), short(e.first), scribbleHint(e))
 				}
 			}
-		}
-		if ch := snap.changed(); len(ch) > 0 {
-			t.Fatalf("PURITY: sweep: shared object(s) %v changed while 4 goroutines ran %s", ch, e.name)
 		}
 		rep.Case(test, "sweep:"+e.name, true, append([]string{"sweep", "entry:" + e.name, "g=4(sweep)", fmt.Sprintf("P=%d", p), "mode:same"}, retClass(e)...)...)
 	}
@@ -594,7 +708,7 @@ func sweepConcurrent(t *testing.T, test string, es []*entry) {
 func propConcurrent(rt *rapid.T, test string, es []*entry) {
 	g := rapid.SampledFrom(gChoices).Draw(rt, "g")
 	p := rapid.SampledFrom(pChoices).Draw(rt, "P")
-	mode := rapid.SampledFrom([]string{"same", "pair", "mix"}).Draw(rt, "mode")
+	mode := rapid.SampledFrom([]string{"same", "pair", "mix", "pool"}).Draw(rt, "mode")
 	pool := es
 	if g == 64 {
 		pool = nil
@@ -615,6 +729,10 @@ func propConcurrent(rt *rapid.T, test string, es []*entry) {
 		alpha = []*entry{pool[rapid.IntRange(0, len(pool)-1).Draw(rt, "entry")]}
 	case "pair":
 		alpha = []*entry{pool[rapid.IntRange(0, len(pool)-1).Draw(rt, "entry")], pool[rapid.IntRange(0, len(pool)-1).Draw(rt, "entry2")]}
+	case "pool": // only entry points borrowing from process-wide pools: they meet each other on every P
+		if alpha = poolUsers(pool); len(alpha) < 2 {
+			alpha, mode = pool, "mix"
+		}
 	default:
 		alpha = pool
 	}
@@ -639,7 +757,6 @@ func propConcurrent(rt *rapid.T, test string, es []*entry) {
 		ul = append(ul, e)
 	}
 	sort.Slice(ul, func(i, j int) bool { return ul[i].idx < ul[j].idx })
-	snap := snapArgs(ul...)
 
 	results, panics := runPlans(p, plans)
 
@@ -647,15 +764,17 @@ func propConcurrent(rt *rapid.T, test string, es []*entry) {
 		if panics[i] != "" {
 			rt.Fatalf("CONCURRENCY: goroutine %d of %d (GOMAXPROCS=%d): panic in %s", i, g, p, panics[i])
 		}
+	}
+	if ch := es[0].g.damaged(); len(ch) > 0 {
+		rt.Fatalf("PURITY: shared object(s) %v changed during concurrent use (g=%d P=%d mode %s) of %s", ch, g, p, mode, key.String())
+	}
+	for i := range plans {
 		for j, s := range plans[i] {
 			if !bytes.Equal(results[i][j], s.e.first) {
 				rt.Fatalf("CONCURRENCY: goroutine %d of %d (GOMAXPROCS=%d, mode %s): %s returned %s, alone it returns %s%s",
 					i, g, p, mode, s.e.name, short(results[i][j]), short(s.e.first), scribbleHint(s.e))
 			}
 		}
-	}
-	if ch := snap.changed(); len(ch) > 0 {
-		rt.Fatalf("PURITY: shared object(s) %v changed during concurrent use (g=%d P=%d)", ch, g, p)
 	}
 	classes := []string{fmt.Sprintf("g=%d", g), fmt.Sprintf("P=%d", p), "mode:" + mode, fmt.Sprintf("g=%d,P=%d", g, p)}
 	for _, e := range ul {
